@@ -68,7 +68,8 @@ def decodeRowTable (v : PyVal) : Option (Table (List PyVal)) := do
     rows.mapM asList)
 
 def decodeOp : PyVal → Option (Op (List PyVal))
-  | .list [.str "arrow", sz] => (optInt sz).map .arrow
+  | .list [.str "arrow", sz] => (optInt sz).map (fun s => .arrow (arrowCall s))
+  | .list [.str "pandas", sz] => (optInt sz).map (fun s => .arrow (pandasCall s))
   | .list [.str "observe"] => some .observe
   | .list [.str "head", .int k] => if k ≥ 0 then some (.head k.toNat) else none
   | .list [.str "fetch", k] => (optNat k).map .fetch
@@ -123,11 +124,37 @@ def handle (op : String) (args : List PyVal) : Option (List PyVal) :=
     let os ← ops.mapM decodeOp
     let r := run ns f os
     pure [.list (r.1.map encOut), .list (r.2.listRows.map .list)]
+  | "reuse", [.list tableSets, .list convs] => do
+    -- several argument objects (lists of tables); each conversion names the one it converts
+    let sets ← tableSets.mapM (fun v => do
+      let ts ← asList v
+      ts.mapM decodeTable)
+    let cs ← convs.mapM (fun c => match c with
+      | .list [.int w, sz, rd] => do
+        let a ← optNat sz
+        let b ← optNat rd
+        if w < 0 then none else
+        let ts ← sets[w.toNat]?
+        pure (ts, a, b)
+      | _ => none)
+    pure [.list (cs.map (fun c => .list (readRows c.1 c.2.1 c.2.2)))]
   | "iterb", [.list tables, size, .int batch] => do
     let ts ← tables.mapM decodeTable
     let m ← optNat size
     if batch ≤ 0 then none
     else pure [.list (drain { tables := ts, current := [], processed := 0, maxSize := m, batch := batch.toNat })]
+  | "iter", [.list tables, size, .str shape] => do
+    let ts ← tables.mapM decodeTable
+    let sz ← optNat size
+    let x ← (match shape, ts with
+      | "list", _ => some (Input.list ts)
+      | "tuple", _ => some (Input.tuple ts)
+      | "generator", _ => some (Input.generator ts)
+      | "single", [t] => some (Input.single t)
+      | _, _ => none)
+    match fromArrowInput x sz with
+    | some rows => pure [.list rows, .list (drainPinned (init ts sz))]
+    | none => pure [.list [.str "raises"], .list [.str "raises"]]
   | "iter", [.list tables, size] => do
     let ts ← tables.mapM decodeTable
     let sz ← optNat size
